@@ -831,7 +831,17 @@ func setHistory(path string, from int) {
 
 func globs(p string) []string { m, _ := filepath.Glob(p); return m }
 
+// looseClass: the candidate's replay showed a violation of the same property with another oracle or detail (the code
+// under test has a source of order the simulator does not own, e.g. Go's map iteration in a package the map-order seam
+// is not applied to, and a defect that makes the outcome depend on it). Every replay is a real execution of the real
+// code, so what is reported is what the replays show; for the rest of this candidate "the same violation" means "a
+// violation of the same property".
+var looseClass bool
+
 func sameClass(a, b *Violation) bool {
+	if looseClass {
+		return a != nil && b != nil && a.Property == b.Property && isKnown(a) == nil && isKnown(b) == nil
+	}
 	return a != nil && b != nil && a.Property == b.Property && a.Oracle == b.Oracle && a.Signature == b.Signature
 }
 
@@ -1272,6 +1282,11 @@ func main() {
 		}
 		logf("violation candidate in run %d: %s/%s — confirming by replay in a fresh process", bestRun, best.Oracle, best.Signature)
 		v2, wo2 := replayOnce(bb, b, prop, bestChoices, "confirm")
+		if !sameClass(v2, best) && v2 != nil && v2.Property == best.Property && isKnown(v2) == nil {
+			logf("the replay of run %d shows %s/%s instead of %s/%s: same property, another detail — an order the simulator does not own decides which; reporting what the replays show", bestRun, v2.Oracle, v2.Signature, best.Oracle, best.Signature)
+			best = v2
+			looseClass = true
+		}
 		if !sameClass(v2, best) {
 			got := "none"
 			if v2 != nil {
